@@ -11,13 +11,13 @@ import (
 )
 
 type op struct {
-	Kind byte // S set, G get, P get-or-panic, D delete, A advance clock, C close
+	Kind byte // S set, G get, P get-or-panic, D delete, A advance clock (expiry/2+1ns), E advance clock by exactly expiry/2, C close
 	Key  int
 }
 
 func (o op) String() string {
 	switch o.Kind {
-	case 'A', 'C':
+	case 'A', 'C', 'E':
 		return string(o.Kind)
 	}
 	return fmt.Sprintf("%c%d", o.Kind, o.Key)
@@ -263,6 +263,9 @@ func runSeq(v variant, ops []op, inBubble bool) (out outcome) {
 			}
 		case 'A':
 			clock.now = clock.now.Add(expiry/2 + time.Nanosecond)
+		case 'E':
+			// two of these after a Set put the clock exactly on the entry's expiration instant: not expired yet
+			clock.now = clock.now.Add(expiry / 2)
 		case 'C':
 			if err := c.Close(); err != nil {
 				fail("close-error:"+v.Policy, "Close returned %v", err)
